@@ -792,6 +792,10 @@ def object_cases(rng, deep):
                     spec = {"kind": "u2gate", "class": name, "num_controls": k, "ctrl_state": cs,
                             "up_to_diagonal": False, "data_kind": "u2", "family": fam}
                     yield spec, u2_matrix(rng, fam)
+                if name == "Mcg" and k >= 2:
+                    spec = {"kind": "u2gate", "class": name, "num_controls": k, "ctrl_state": cs_list[-1],
+                            "up_to_diagonal": True, "data_kind": "u2", "family": fam}
+                    yield spec, u2_matrix(rng, fam)
     for (bname, base, err, ks) in (("rx0.3", rx(0.3), 0.1, (2, 3, 4)), ("x", X, 0.5, (4, 5))):
         for k in ks:
             for cs in (None, "".join(str(int(b)) for b in rng.integers(0, 2, k))):
@@ -874,6 +878,8 @@ def histogram_family(spec):
         tag = spec["scheme"]
     if k == "toffoli":
         tag = f"cancel={spec['cancel']}"
+    if k == "u2gate" and spec.get("up_to_diagonal"):
+        tag = "up_to_diagonal"
     return f"{spec['class'].split('.')[-1]}" + (f"[{tag}]" if tag else "")
 
 
